@@ -1930,6 +1930,10 @@ namespace bloch::compiler {
         auto errorWithTypes = [&](const std::string& message) {
             throw BlochError(ErrorCategory::Semantic, node.line, node.column, message);
         };
+        if ((lt.className.empty() && lt.value == ValueType::Void) ||
+            (rt.className.empty() && rt.value == ValueType::Void)) {
+            errorWithTypes("operator '" + node.op + "' cannot use the result of a 'void' call");
+        }
         if ((lt.value == ValueType::Null || rt.value == ValueType::Null) && node.op != "==" &&
             node.op != "!=") {
             throw BlochError(ErrorCategory::Semantic, node.line, node.column,
@@ -2493,8 +2497,20 @@ namespace bloch::compiler {
     void SemanticAnalyser::visit(IndexExpression& node) {
         if (node.collection)
             node.collection->accept(*this);
-        if (node.index)
+        if (node.index) {
             node.index->accept(*this);
+            TypeInfo indexType = inferTypeInfo(node.index.get());
+            // The evaluator accepts int, long, bit and float (truncated) indices when reading.
+            bool numeric = indexType.className.empty() &&
+                           (indexType.value == ValueType::Int ||
+                            indexType.value == ValueType::Long ||
+                            indexType.value == ValueType::Bit ||
+                            indexType.value == ValueType::Float);
+            if (!isUndeterminedType(indexType) && !numeric) {
+                throw BlochError(ErrorCategory::Semantic, node.line, node.column,
+                                 "array index must be numeric");
+            }
+        }
     }
 
     void SemanticAnalyser::visit(ArrayLiteralExpression& node) {
